@@ -18,7 +18,8 @@ CLAIMED = {
               'end starts a new lifetime, close ends every key. Tied to /repo by exact differential correspondence of the '
               'compiled Lean model against the real classes on all short op sequences and seeded random long ones, plus an '
               'independent oracle and concurrent publishers under a permuting event loop.' 
-              'Also theorems about close() in flight (the real close() suspends between keys): a key leaves the dict only with its item closed, a closed item stays closed, and whatever other tasks do between the iterations, when the loop ends every key that was in the dict — or was created meanwhile — has been closed; the atomic close of the serial model equals the loop run without interference. Tied by a close-race scenario (subscribe / publish while close() is in flight, random schedules): every subscription started before close() returned terminates.'),
+              'Also theorems about close() in flight (the real close() suspends between keys): a key leaves the dict only with its item closed, a closed item stays closed, and whatever other tasks do between the iterations, when the loop ends every key that was in the dict — or was created meanwhile — has been closed; the atomic close of the serial model equals the loop run without interference. Tied by a close-race scenario (subscribe / publish while close() is in flight, random schedules): every subscription started before close() returned terminates.' 
+              'Also 65–200 subscribers on one topic with some leaving early.'),
         design='§6 C08, §5 model B',
         note=COMMON_NOTE + 'Assumes F2 (publishing never suspends), which the permuting-loop runs exercise.',
         technique='Lean 4 invariant proof by induction over operation lists + differential correspondence (hand-written model)'),
@@ -30,7 +31,8 @@ CLAIMED = {
               'differential correspondence with the real peek_stdout_by_key on all short write sequences and random unicode ones, '
               'plus generated scripts printing from threads and asyncio tasks through the real child against an oracle '
               '(attribution, whole lines, no debugger text, real stdout complete).' 
-              'Also 3–6 real threads writing partial lines at the same time under a 1 µs thread-switch interval through the real trace machinery: what each thread wrote is what is reported for its trace.'),
+              'Also 3–6 real threads writing partial lines at the same time under a 1 µs thread-switch interval through the real trace machinery: what each thread wrote is what is reported for its trace.' 
+              'Also texts with CR, VT, FF, FS…US, NEL, LS, PS, and two runs of one object (text per run and trace).'),
         design='§6 C13, §5 model K',
         note=COMMON_NOTE + 'Which trace number is current at a write is model D1 (C06); absence of Pdb text in reported output is '
              'checked on real-child runs only (Pdb writes to its private StdInOut stream).',
@@ -47,7 +49,8 @@ CLAIMED = {
               'caller of a real Nextline object with generated and exhaustive small streams at every kind of prefix (publications '
               'compared per hook call and per key with the compiled model), eager and lazy subscribers attached at random points, and '
               'recorded real-child runs.' 
-              'Also end to end through the real run session: a simulated child emits a well-formed stream faster than a slow plugin lets the relay deliver it, then exits or is killed with traces and prompts open; at finished the active set is empty, prompt notices match prompt starts, subscribers have terminated (random schedules).'),
+              'Also end to end through the real run session: a simulated child emits a well-formed stream faster than a slow plugin lets the relay deliver it, then exits or is killed with traces and prompts open; at finished the active set is empty, prompt notices match prompt starts, subscribers have terminated (random schedules).' 
+              'Trace numbers start from arbitrary bases; subscribers attach between the start of a trace and its first prompt.'),
         design='§6 C11, §5 model C',
         note=COMMON_NOTE + 'Well-formedness of the child\'s stream is property C09; F2 atomicity of hook implementations is assumed and '
              'exercised. Clauses "prompt open then closed with its command" and "notices match starts" are checked by correspondence + oracle only.',
@@ -61,7 +64,8 @@ CLAIMED = {
               'ends has seen no failed awaited task, and a raised exception is that of an awaited task; to_aiter yields exactly the iterable. '
               'Tied to /repo by trace acceptance: the real helpers run under a permuting event loop (all schedules of small configurations by '
               'DFS, seeded random schedules of larger ones) with instrumented sources, and the exact observed label sequence must be accepted '
-              'by the compiled model and end in a terminal state; plus an independent oracle.'),
+              'by the compiled model and end in a terminal state; plus an independent oracle.' 
+              'Also items of any kind (None, falsy values, exceptions as values), an exhausted to_aiter staying exhausted, consumers sharing one wrapper.'),
         design='§6 C19, §5 model J',
         note=COMMON_NOTE + 'Termination is shown as absence of deadlock under the assumption that pending source tasks eventually complete and the '
              'consumer keeps iterating; asyncio.wait/ensure_future semantics are modelled.',
@@ -77,7 +81,8 @@ CLAIMED = {
               'the real Prompt plugin, relay_commands thread, PromptFunc counter and Repeater in a real plugin manager with simulated traces, on '
               'all decoy streams of bounded length and seeded random op sequences (phase-synchronised), plus real-child runs with five decoys '
               'around every genuine answer.' 
-              'Also concurrent programs through the real trace machinery in-process with one thread\'s first prompt withheld, every genuine answer surrounded by decoys incl. this prompt\'s number addressed to every other live trace; the command recorded when a prompt closes must be the one addressed to it.'),
+              'Also concurrent programs through the real trace machinery in-process with one thread\'s first prompt withheld, every genuine answer surrounded by decoys incl. this prompt\'s number addressed to every other live trace; the command recorded when a prompt closes must be the one addressed to it.' 
+              'Also two runs of one object, the first ended by kill/terminate/interrupt at a prompt; a scenario in which commands get stuck is reported with its operation sequence.'),
         design='§6 C07, §5 model E',
         note=COMMON_NOTE + 'The correspondence samples phase-synchronised schedules (the harness waits for queue quiescence); queue.Queue FIFO/thread-safety is CPython behaviour.',
         technique='Lean 4 invariant proof over label lists + differential correspondence (hand-written model) + real-child decoy runs'),
@@ -92,13 +97,15 @@ CLAIMED = {
               '(sys.monitoring INSTRUCTION events) of the monitor before every bytecode offset of _monitor and of a registering thread before '
               'every offset of register, with another thread registering / ending / close() being called in the gap; TaskDoneCallback under the '
               'permuting loop; plus an independent oracle.' 
-              'Also one TaskDoneCallback shared by tasks of two threads with their own event loops: thread A parked before every bytecode of _callback while thread B registers / is called back; close() must neither return early nor hang (the model\'s labels are atomic, which is exactly what this validates).'),
+              'Also one TaskDoneCallback shared by tasks of two threads with their own event loops: thread A parked before every bytecode of _callback while thread B registers / is called back; close() must neither return early nor hang (the model\'s labels are atomic, which is exactly what this validates).' 
+              'Also callbacks raising exceptions that are not Exceptions, and the consequence named by the property — every trace that starts ends — on programs whose threads/tasks end by return, raise, cancellation, being left pending or not being joined.'),
         design='§6 C18, §5 model I',
         note=COMMON_NOTE + 'GIL switch points other than the forced ones are whatever CPython produces; registrations after close() are outside the '
              'documented contract. Two defects found and fixed here: F-I1 (lost registration) and F-I2 (exit-check read order).',
         technique='Lean 4 invariant proof over label lists (LTS) + trace-acceptance correspondence under bytecode-level forced preemption'),
     'C01': dict(
-        text=('Theorems: the FSM table regenerated from nextline/fsm/config.py contains only the documented transitions, closed has no way out, one transition per (trigger, source), invalid triggers are neither ignored nor queued (decide on the generated table); a refused run/reset raises MachineError and changes nothing, for every state; which requests are refused; in every reachable state of model A every operation publishes on state_name a walk along documented edges from the current state to the new one, and the attribute changes only that way; closed is never left. Tied to /repo by the translator (table) and by exact correspondence of model A with the real Nextline + simulated child on all short serial histories and seeded random long ones (stock-order and random schedules), plus overlapping calls from 2–3 tasks under a permuting event loop with the state attribute sampled after every scheduler step (oracle).'),
+        text=('Theorems: the FSM table regenerated from nextline/fsm/config.py contains only the documented transitions, closed has no way out, one transition per (trigger, source), invalid triggers are neither ignored nor queued (decide on the generated table); a refused run/reset raises MachineError and changes nothing, for every state; which requests are refused; in every reachable state of model A every operation publishes on state_name a walk along documented edges from the current state to the new one, and the attribute changes only that way; closed is never left. Tied to /repo by the translator (table) and by exact correspondence of model A with the real Nextline + simulated child on all short serial histories and seeded random long ones (stock-order and random schedules), plus overlapping calls from 2–3 tasks under a permuting event loop with the state attribute sampled after every scheduler step (oracle).' 
+              'The operation alphabet also has a script given as a path to a missing file, a hard exit with a positive status, a second plugin registered/unregistered, a plugin whose on_end_run raises; the oracle also demands that a request the diagram does not allow is refused with an error.'),
         design='§6 C01, App. A',
         note=COMMON_NOTE + 'Theorems are about serial histories (no lifecycle call issued while another is in progress), which is where the property can hold: overlapping calls interfere through transitions\' cancellation of in-flight triggers — known findings F-A2/F-A2c/F-A2d/F-A3 (open), matched by violation kind so that any other misbehaviour under overlap is still reported. transitions/apluggy/asyncio are modelled, not verified.',
         technique='Lean 4 proofs over a deterministic API-level model + generated FSM table (translator) + differential correspondence with a simulated child under a permuting event loop'),
@@ -113,7 +120,8 @@ CLAIMED = {
               'namespace listings, exception state, closures, generator finalisation) × statement form {source text, path, callable, code object} × command '
               'policy × trace_threads × trace_modules, run through the child\'s real trace machinery in-process against an untraced reference execution '
               '(per-thread/task stdout, return value, exception type, innermost line, traceback shape), plus the forms through a real spawn child.' 
-              'Also 3–6 threads printing lines assembled from partial writes at the same time under a 1 µs thread-switch interval, and an exact correspondence of the traceback-cleaning model with the real clean-up on every traceback shape up to 5 (7) frames.'),
+              'Also 3–6 threads printing lines assembled from partial writes at the same time under a 1 µs thread-switch interval, and an exact correspondence of the traceback-cleaning model with the real clean-up on every traceback shape up to 5 (7) frames.' 
+              'Also BaseException-only exceptions raised in nested functions (all user frames compared), results of scripts that end with thousands of events in flight, threads left behind by the script.'),
         design='§6 C04',
         note=COMMON_NOTE + 'Partial by nature: the quantifier “whatever commands are issued, any script” ranges over CPython\'s semantics under sys.settrace, '
              'which is sampled by the generator, not proved. stderr (CPython\'s RuntimeWarning about inlined comprehensions under a trace function) and '
@@ -121,13 +129,15 @@ CLAIMED = {
         technique='Lean 4 proof of the traceback-cleaning and pass-through core + differential correspondence against an untraced reference execution'),
     'C03': dict(
         text=('Theorems over model A: close() never raises in any reachable state; a second close() does nothing; when no run is in progress the first close() returns at once with the broker closed (every earlier subscription terminates, by C08), state closed, no child alive; while a run is in progress close() waits and, whatever else the environment does, returns as soon as the child exits — however it ends — with state closed and no child alive. Tied to /repo by exact correspondence (close issued at every point of every short serial history, from a fresh task each time, subscribers attached before and after start) and an oracle; overlapping calls under the permuting loop (oracle).' 
-              'Histories include close() issued k scheduler steps after the child\'s exit (kclose, k = 0…14), i.e. anywhere between the exit of the process and the end of the finish transition.'),
+              'Histories include close() issued k scheduler steps after the child\'s exit (kclose, k = 0…14), i.e. anywhere between the exit of the process and the end of the finish transition.' 
+              'Also: subscription iterators handed out before close() and first advanced after it; close() pending while a completion hook of a plugin raises.'),
         design='§6 C03',
         note=COMMON_NOTE + 'Theorems are about serial histories (no lifecycle call issued while another is in progress), which is where the property can hold: overlapping calls interfere through transitions\' cancellation of in-flight triggers — known findings F-A2/F-A2c/F-A2d/F-A3 (open), matched by violation kind so that any other misbehaviour under overlap is still reported. transitions/apluggy/asyncio are modelled, not verified.',
         technique='Lean 4 proofs over a deterministic API-level model + generated FSM table (translator) + differential correspondence with a simulated child under a permuting event loop'),
     'C15': dict(
         text=('Theorems over model A: a child is alive exactly while the state is running; run/reset while running are refused and change nothing; an operation starts at most one child and only when none is alive; once finished is published the child has exited. Tied to /repo by exact correspondence on serial histories with the number of live simulated children sampled after every operation, and overlapping run/run, run/reset, reset/run, run/close under the permuting loop with live children sampled after every scheduler step (oracle).' 
-              'Also real spawn children incl. a script whose process lingers for seconds after the script returned (non-daemon thread): no child process is alive when finished is published.'),
+              'Also real spawn children incl. a script whose process lingers for seconds after the script returned (non-daemon thread): no child process is alive when finished is published.' 
+              'Also: the caller of run() cancelled k scheduler steps after the request; reset() then run() from another task at exact offsets with and without a slow reset hook.'),
         design='§6 C15',
         note=COMMON_NOTE + 'Theorems are about serial histories (no lifecycle call issued while another is in progress), which is where the property can hold: overlapping calls interfere through transitions\' cancellation of in-flight triggers — known findings F-A2/F-A2c/F-A2d/F-A3 (open), matched by violation kind so that any other misbehaviour under overlap is still reported. transitions/apluggy/asyncio are modelled, not verified.',
         technique='Lean 4 proofs over a deterministic API-level model + generated FSM table (translator) + differential correspondence with a simulated child under a permuting event loop'),
@@ -139,24 +149,28 @@ CLAIMED = {
               'interpreter boot to racing completion × {log collection, initializer} + a log backlog larger than a pipe buffer, each case in its own '
               'sub-process with a wall-clock bound, checking result, exit code, liveness, leftover tasks, and agreement with the model for the outcome '
               'class that occurred.' 
-              'Also a function that returns at once while its process takes 4.5 s to exit: awaiting the handle yields only once the process has been reaped.'),
+              'Also a function that returns at once while its process takes 4.5 s to exit: awaiting the handle yields only once the process has been reaped.' 
+              'Also kill/terminate from another task while the handle of a lingering process is awaited, and a fresh awaiter of the handle at every event-loop iteration around the exit.'),
         design='§6 C17, §5 model H',
         note=COMMON_NOTE + 'Partial by nature: reaping, thread clean-up and what the future resolves to for each way of dying are concurrent.futures/'
              'multiprocessing behaviour (modelled in futureOf, observed by the sweep). Defect F-H1 (event loop blocked in executor shutdown) found and fixed here.',
         technique='Lean 4 decision-table proof + real-process outcome/signal sweep compared with the model'),
     'C12': dict(
         text=('Theorems over model A: every operation extends the hook log by a word of the protocol automaton initialise-run · start-run · in-process events · end-run (state still running, run arguments present) · finished (state finished, arguments withdrawn), each once, for every operation except close() of a run that was initialised but never started (which calls no hook and leaves the arguments in place — the full statement is proved false on start();close() and the exact statement with the automaton state read from the model is proved instead); the whole hook log of every history is accepted; a refused request calls no hook; the run arguments are present in initialized and running and absent in created/finished. Tied to /repo by exact correspondence of the hook log seen by a plugin registered through Nextline.register (sampling Nextline.state and context.run_arg inside each hook) on all short serial histories and random long ones incl. events still in the channel at child exit and callers reacting to the state attribute, plus an oracle (regular expression per run).' 
-              'Histories include a plugin whose on_end_run raises while the child exits (exitx): the run is still finished and its arguments withdrawn.'),
+              'Histories include a plugin whose on_end_run raises while the child exits (exitx): the run is still finished and its arguments withdrawn.' 
+              'Also re-registration of a plugin between and during runs, and real spawn children ending by return, raise, os._exit(1) and kill.'),
         design='§6 C12',
         note=COMMON_NOTE + 'Theorems are about serial histories (no lifecycle call issued while another is in progress), which is where the property can hold: overlapping calls interfere through transitions\' cancellation of in-flight triggers — known finding F-A2 (open), matched by violation kind. transitions/apluggy/asyncio are modelled, not verified.',
         technique='Lean 4 proofs over a deterministic API-level model + generated FSM table (translator) + differential correspondence with a simulated child under a permuting event loop'),
     'C14': dict(
-        text=("Theorems over model A: an accepted (re)initialisation publishes exactly one run number — the next one or the one the caller restarts from — and the counter moves just past it; no other operation publishes or changes it; the run arguments always equal the composer\\'s current statement and options and carry the number published last, and the child is started with exactly them; a reset takes full effect (all given options, one re-initialisation) or none (refused ⇒ state unchanged). Tied to /repo by exact correspondence on serial histories with reset carrying every subset of the four options (run_no/run_info/statement publications and the RunArg handed to the simulated child) and an oracle."),
+        text=("Theorems over model A: an accepted (re)initialisation publishes exactly one run number — the next one or the one the caller restarts from — and the counter moves just past it; no other operation publishes or changes it; the run arguments always equal the composer\\'s current statement and options and carry the number published last, and the child is started with exactly them; a reset takes full effect (all given options, one re-initialisation) or none (refused ⇒ state unchanged). Tied to /repo by exact correspondence on serial histories with reset carrying every subset of the four options (run_no/run_info/statement publications and the RunArg handed to the simulated child) and an oracle. "
+              "Also reset ∥ run from two tasks at the scheduler offsets where the unchanged code lets one of them win cleanly, and two real runs of one object (run number of every record of the second run, incl. after reset(run_no_start_from=10))."),
         design='§6 C14',
         note=COMMON_NOTE + 'Theorems are about serial histories (no lifecycle call issued while another is in progress), which is where the property can hold: overlapping calls interfere through transitions\' cancellation of in-flight triggers — known finding F-A2 (open), matched by violation kind. transitions/apluggy/asyncio are modelled, not verified.',
         technique='Lean 4 proofs over a deterministic API-level model + generated FSM table (translator) + differential correspondence with a simulated child under a permuting event loop'),
     'C16': dict(
-        text=("Theorems over model A: Continue plugins are registered only while running, at most one, and the flag is true iff one is registered; a refused non-interactive request leaves no plugin behind and the flag false unless a non-interactive run is in flight; after an accepted plain run() no command reaches the child on any prompt for the rest of that run, whatever happened before (refused or accepted requests in any order). Tied to /repo by exact correspondence (continuous_enabled after every operation, the flag\\'s publications, commands reaching the simulated child\\'s queue when it emits prompts) on all short serial histories and random long ones, and an oracle."),
+        text=("Theorems over model A: Continue plugins are registered only while running, at most one, and the flag is true iff one is registered; a refused non-interactive request leaves no plugin behind and the flag false unless a non-interactive run is in flight; after an accepted plain run() no command reaches the child on any prompt for the rest of that run, whatever happened before (refused or accepted requests in any order). Tied to /repo by exact correspondence (continuous_enabled after every operation, the flag\\'s publications, commands reaching the simulated child\\'s queue when it emits prompts) on all short serial histories and random long ones, and an oracle. "
+              "Also: a plugin hook raising during a non-interactive run; a non-interactive run requested while start() is still in flight."),
         design='§6 C16',
         note=COMMON_NOTE + 'Theorems are about serial histories (no lifecycle call issued while another is in progress), which is where the property can hold: overlapping calls interfere through transitions\' cancellation of in-flight triggers — known finding F-A2 (open), matched by violation kind. transitions/apluggy/asyncio are modelled, not verified.',
         technique='Lean 4 proofs over a deterministic API-level model + generated FSM table (translator) + differential correspondence with a simulated child under a permuting event loop'),
@@ -169,7 +183,8 @@ CLAIMED = {
               '/repo by (1) exact correspondence of model A on serial histories where runs end in every way the simulated child can end and (2) a '
               'real-process sweep: ending kind × signal delivery point (k-th open prompt, before the first prompt, during a sleep) × script shape, '
               'each case in its own sub-process with a wall-clock bound, observed (states, run_info, result, exception, waiter released, exit code) '
-              'against the prediction.'),
+              'against the prediction.' 
+              'Real children also: a script that raises at the end of a long traced loop (thousands of events in flight), threads that outlive the main script, and a second run of the same object after kill/terminate.'),
         design='§6 C02, §5 models A/G',
         note=COMMON_NOTE + 'Partial by nature below the FSM: pipes, signals and process reaping are CPython/OS behaviour, covered only by the '
              'real-process sweep. Premise of the liveness half: the child eventually exits. Open known findings matched by mechanism/signature: F-G3 '
@@ -189,7 +204,8 @@ CLAIMED = {
               '(line, event, function shown) — exhaustive over a 9-block reduced grammar up to 3 blocks × 6 policies, random programs × 8 policies, '
               'generator/yield-from/context-manager/exception templates, threads and tasks with thread tracing on and off, module tracing on; plus an '
               'oracle written from the statement (all-step: prompts = executed lines in order; all-next: the bottom frame only, all of its lines; '
-              'all-continue: one prompt; never in lambdas / skipped modules / other threads) and the filter alone against the real pluggy hook.'),
+              'all-continue: one prompt; never in lambdas / skipped modules / other threads) and the filter alone against the real pluggy hook.' 
+              'Also a user module whose function is first called by a thread and then by the stepping main thread (module tracing on).'),
         design='§6 C05, App. B, §0.6',
         note=COMMON_NOTE + 'The model is of CPython 3.12.1\'s bdb/pdb: hypotheses botframe known and not a generator frame are explicit in continue_once / '
              'next_not_in_callees (bdb\'s StopIteration/GeneratorExit rule). Not modelled: breakpoints, skip patterns of Pdb, quit/up/down/jump; '
@@ -207,7 +223,8 @@ CLAIMED = {
               'Tied to /repo by model acceptance of the event streams emitted by the real trace machinery on generated programs with up to 3 threads and '
               '3 tasks (nested, sequential, executor threads), and an oracle using code locations as ground truth for the producing entity, incl. a '
               'responder that withholds one thread\'s answer until nothing else moves.' 
-              'Also a stress family (3–6 threads inside the trace machinery at the same time, 1 µs thread-switch interval) and a prompt-text oracle: every location line of a prompt\'s text names a function that trace executes.'),
+              'Also a stress family (3–6 threads inside the trace machinery at the same time, 1 µs thread-switch interval) and a prompt-text oracle: every location line of a prompt\'s text names a function that trace executes.' 
+              'Also withheld prompts with module tracing on (at quiescence no other trace may be stuck inside a trace call), task bodies writing partial lines across a suspension, tasks/threads created one after the other (addresses reused), cancelled tasks, threads that are not joined.'),
         design='§6 C06, §5 model D1',
         note=COMMON_NOTE + 'Not exhibited by the model: GIL/OS scheduling and blocking inside multiprocessing.Queue.put — covered only by the runs.',
         technique='Lean 4 invariant/frame proofs over an LTS + trace-acceptance correspondence of real event streams + location-based oracle'),
@@ -221,7 +238,8 @@ CLAIMED = {
               'table). Tied to /repo by the deterministic model run on the observed events plus a harness-computed witness for the hidden steps (same '
               'nesting, same numbers) on streams emitted by the real trace machinery in-process on generated programs × policies (step/next/continue/return/until/'
               'mixes/decoys/non-resuming commands) and by real spawn children with SIGINT at an open prompt (child-side probe), plus a stack-checker oracle.' 
-              'Also the stress family (threads making trace calls at the same time under a 1 µs thread-switch interval): numbers stay unique.'),
+              'Also the stress family (threads making trace calls at the same time under a 1 µs thread-switch interval): numbers stay unique.' 
+              'Also tasks/threads created one after the other (addresses reused), cancelled and pending tasks, threads that are not joined.'),
         design='§6 C09, §5 model D1',
         note=COMMON_NOTE + 'That CPython invokes the trace function as the model\'s labels say (no nested trace calls within a trace) is assumed and exercised.',
         technique='Lean 4 simulation proof (emitter LTS refines the consumer grammar) + trace-acceptance correspondence of real event streams'),
@@ -234,7 +252,8 @@ CLAIMED = {
               'child is gone. Tied to /repo by trace acceptance of the real RunSession/relay_events/monitor with a simulated child and channel under the '
               'permuting loop (bursts, slow plugins, exit with backlog, kills keeping 0..all pending items) and by real children printing bursts right '
               'before exiting (child-side probe log vs recording plugin).' 
-              'Also a real child that has emitted its whole burst and returned, a slow plugin, and interrupt() while most of the burst is still in the channel: nothing may be lost.'),
+              'Also a real child that has emitted its whole burst and returned, a slow plugin, and interrupt() while most of the burst is still in the channel: nothing may be lost.' 
+              'Also well-formed streams of all event kinds with slow hooks (the completion order of the hooks is compared) and text objects of the script\'s own classes.'),
         design='§6 C10, §5 model F',
         note=COMMON_NOTE + 'Not exhibited: byte-level truncation of a pickled event; a child dying while holding the queue write lock (open finding F-G3).',
         technique='Lean 4 invariant proof over an LTS + trace-acceptance correspondence under a permuting event loop + real-process bursts'),
